@@ -92,6 +92,7 @@ Stats == /\ Consume /\ Ev.op = "Stats"
 Recover == /\ Consume /\ Ev.op = "Recover"
            /\ IF void THEN UNCHANGED viol
               ELSE Flag((IF ~Ev.judged THEN {"dead-lock-not-reported-stale"} ELSE {}) \cup
+                        (IF Ev.silentAfterTakeover THEN {"lock-won-by-takeover-gives-no-sign-of-life"} ELSE {}) \cup
                         (IF Ev.result # "" THEN {"dead-lock-not-recoverable"} ELSE {}))
            /\ UNCHANGED <<roundId, period, lastM, alive, released, diedAt, valid, discarded, void, nSign, lateSign, lateCtl>>
 
@@ -108,7 +109,19 @@ DeathPoint ==
     /\ nSign' = 0 /\ lateSign' = 0 /\ lateCtl' = 0
     /\ UNCHANGED <<period, lastM, alive, released, diedAt, void>>
 
-TraceNext == Stats \/ Start \/ End \/ Sign \/ Ctl \/ Acquired \/ Died \/ Released \/ Poll \/ Recover \/ DeathPoint
+\* take-over, then hold (vh c17 takeoverhold): B won a dead holder's lock by taking it over and holds it; four periods later an
+\* overriding C must still be refused (and must not see B's lock stale) - provided the control heartbeat kept its period
+TakeoverHold ==
+    /\ Consume /\ Ev.op = "TakeoverHold"
+    /\ (roundId # 0 => Verdict)
+    /\ roundId' = 5000 + l
+    /\ viol' = (IF Ev.acquiredB # "" THEN {"dead-lock-not-recoverable"} ELSE
+                 (IF Ev.ctlBeats >= 3 /\ Ev.resultC = "" THEN {"lock-taken-over-from-a-live-holder"} ELSE {})
+                 \cup (IF Ev.ctlBeats >= 3 /\ Ev.staleSeenByC THEN {"live-lock-reported-stale-after-takeover"} ELSE {}))
+    /\ valid' = 1 /\ discarded' = 0 /\ nSign' = 0 /\ lateSign' = 0 /\ lateCtl' = 0
+    /\ UNCHANGED <<period, lastM, alive, released, diedAt, void>>
+
+TraceNext == TakeoverHold \/ Stats \/ Start \/ End \/ Sign \/ Ctl \/ Acquired \/ Died \/ Released \/ Poll \/ Recover \/ DeathPoint
 TraceSpec == TraceInit /\ [][TraceNext]_vars
 TraceAccepted == LET n == TLCGet("stats").diameter - 1 IN PrintT(<<"TRACE_MATCHED", n>>) /\ n = Len(Trace)
 =============================================================================
